@@ -35,7 +35,7 @@ def PRE_IMPORT(spec):
 
 def shards(tier, seed, scale):
     n = 16
-    return [{"programs": 3 if tier == "quick" else 6, "schedules": int((260 if tier == "quick" else 1500) * scale), "systematic": tier == "thorough"} for _ in range(n)]
+    return [{"programs": 3 if tier == "quick" else 6, "schedules": int((260 if tier == "quick" else 700) * scale), "systematic": tier == "thorough"} for _ in range(n)]
 
 
 # ------------------------------------------------------------------ programs
